@@ -14,6 +14,13 @@ and inverts the derivative, the library's validation() is silent, results identi
 code -> spec: every forecast is recorded (candidates tried and accepted, chosen set, expenditures) and annotated with the
 spec's marginal utilities and objective; specs/MdcevTrace.tla judges each trace against the Kuhn-Tucker predicates of the
 design module, the order of the tries and the brute-force optimiser's objective.
+
+One model object on several data sets (specs/MdcevSeq.tla, EXTENDS Mdcev): a history forecasts data set A, then data set B (same
+columns, other values), then A again, row by row with the procedure of the design module; the observable after each step is
+the optimum for the data of THAT step (SeqForecastIsOptimum, SeqSameDataSameForecast ...), whatever the row labels are (default
+index, offset, the same labels in both data sets, the same labels on other rows, one label for all rows).  The replay builds
+ONE real model object per history whose utilities read the columns of the observation and runs forecast(), the one-draw
+forecast, the pieces and validation() on every step; every forecast is also judged by MdcevTrace.
 """
 
 from __future__ import annotations
@@ -32,21 +39,27 @@ PID = 'C18'
 
 
 def run_models(chk, tier, seed):
-    """Two TLC runs (exact mode with all model invariants; kkt mode = generator only), concurrently;
-    -> {(mode, variant): [records]}"""
+    """Three TLC runs (exact mode with all model invariants; kkt mode = generator only; seq mode = MdcevSeq: one model object
+    on several data sets, all model invariants + those of the histories), concurrently;
+    -> {(mode, variant): [records]}, [history records]"""
     out = {}
 
     def go(mode):
         inst = mdcev.instance(tier, seed, mode)
-        out[mode] = tlc.run('MCMdcev', mdcev.cfg(inst, invariants=None if mode == 'exact' else ['StagesOK']),
-                            extra_modules={'MCMdcev': mdcev.module(inst)}, workers=12 if mode == 'exact' else 3,
-                            timeout=2400, heap='4g')
+        out[mode] = tlc.run('MCMdcev', mdcev.cfg(inst, invariants=['StagesOK'] if mode == 'kkt' else None),
+                            extra_modules={'MCMdcev': mdcev.module(inst, base='MdcevSeq' if mode == 'seq' else 'Mdcev')},
+                            workers={'exact': 10, 'kkt': 2, 'seq': 4}[mode], timeout=2400, heap='4g')
 
-    ths = [threading.Thread(target=go, args=(m,)) for m in ('exact', 'kkt')]
+    ths = [threading.Thread(target=go, args=(m,)) for m in ('exact', 'kkt', 'seq')]
     for t in ths:
         t.start()
     for t in ths:
         t.join()
+    res = out.pop('seq')
+    chk.add_tlc(f'MdcevSeq, four variants: {", ".join(mdcev.MODEL_INVARIANTS + mdcev.SEQ_INVARIANTS)}', res)
+    histories = [r for r in res.emitted if isinstance(r, dict) and 'hist' in r]
+    if not histories or res.states < len(histories) or {r['c']['v'] for r in histories} != set(mdcev.VARIANTS):
+        raise tlc.MachineryError(f'MdcevSeq: {len(histories)} histories emitted, {res.states} states: {res.raw[-1500:]}')
     emitted = {}
     for mode, res in sorted(out.items()):
         invs = ', '.join(mdcev.MODEL_INVARIANTS) if mode == 'exact' else 'StagesOK (generator only)'
@@ -56,7 +69,7 @@ def run_models(chk, tier, seed):
             if not recs or res.states < len(res.emitted):
                 raise tlc.MachineryError(f'Mdcev {mode} {v}: {len(recs)} instances emitted, {res.states} states: {res.raw[-1500:]}')
             emitted[(mode, v)] = recs
-    return emitted
+    return emitted, histories
 
 
 def distinct_instances(chk, emitted):
@@ -85,7 +98,7 @@ def body(chk: check.Check):
     quick = chk.tier == 'quick'
     timing = chk.extra.setdefault('timing_s', {})
     t0 = time.time()
-    emitted = run_models(chk, chk.tier, chk.seed)
+    emitted, histories = run_models(chk, chk.tier, chk.seed)
     recs = distinct_instances(chk, emitted)
     timing['tlc_models'] = round(time.time() - t0, 1)
 
@@ -93,8 +106,19 @@ def body(chk: check.Check):
     probs = []
     for r in recs[:: (7 if quick else 3)]:
         probs += mdcev.spec_selfcheck(r)
+    for r in histories[:: (5 if quick else 3)]:
+        probs += mdcev.seq_selfcheck(r)
     if probs:
         raise tlc.MachineryError(f'Mdcev.tla is not self-consistent: {probs[:3]}')
+    # the histories must be able to tell a re-used result from a fresh one: the optimum for the second data set differs from the
+    # optimum for the first at a row of the same label (resp. the same position) in most of them
+    telling = sum(1 for r in histories if any(a['x'] != b['x'] for a in r['hist'] for b in r['hist']
+                                               if a['step'] == 1 and b['step'] == 2 and (a['lab'] == b['lab'] or a['row'] == b['row'])))
+    chk.extra['histories'] = dict(emitted=len(histories), second_data_set_changes_the_optimum=telling,
+                                  row_labels=dict(collections.Counter(f"{r['seq']['la']} then {r['seq']['lb']}" for r in histories)),
+                                  rows_forecast_by_the_model=sum(len(r['hist']) for r in histories))
+    if telling * 2 < len(histories) or len(chk.extra['histories']['row_labels']) < len(mdcev.SCENARIOS):
+        raise tlc.MachineryError(f'the histories do not exercise re-use: {chk.extra["histories"]}')
 
     # ------------------------------------------------------------------ replay
     nlab = 2 if quick else 3
@@ -110,23 +134,41 @@ def body(chk: check.Check):
     chk.extra['labellings_run'] = dict(collections.Counter(str(l) for it in items for l in it['labs']))
     chk.rule = ('instances emitted by TLC from Mdcev.tla (exact mode: with the optimum computed on the model; kkt mode: terms only); '
                 'a replayed behaviour = one instance x one labelling of the goods run through the real model classes; distinct = distinct '
-                '(variant, goods, outside good, prices, scale, budget) instances')
+                '(variant, goods, outside good, prices, scale, budget) instances; histories (MdcevSeq.tla): a replayed behaviour = one row of one step '
+                'forecast by the ONE model object of the history, distinct = distinct (instance, scenario)')
+    seq_items = []
+    for j, r in enumerate(histories):
+        labs = mdcev.LABELINGS[r['c']['n']]
+        seq_items.append(dict(id=f'q{j}', rec=r, lab=labs[(j + chk.seed) % len(labs)], seq=True,
+                              engine=(2, 1) if j % 2 == 0 else (3, 1), validation=(1, 2) if j % 2 == 0 else (2, 3)))
     t0 = time.time()
     results = par.pmap(mdcev.replay, items, chunk=max(10, len(items) // 160), timeout=600)
     timing['replay'] = round(time.time() - t0, 1)
+    t0 = time.time()
+    results += par.pmap(mdcev.replay_seq, seq_items, chunk=max(4, len(seq_items) // 160), timeout=600)
+    timing['replay_histories'] = round(time.time() - t0, 1)
+    items = items + seq_items
     traces, tinfo = [], {}
     by_kind = collections.Counter()
     per_variant = collections.Counter()
     samples = {}
+    seq_samples = {}
+    seq_forecasts = 0
     for item, (st, val) in zip(items, results):
         c = item['rec']['c']
+        ikey = mdcev.seq_key(item['rec']) if item.get('seq') else mdcev.inst_key(c)
         if st != 'ok':
-            chk.violation(f"{c['v']}:replay-{st}", dict(instance=mdcev.inst_key(c), error=val),
+            chk.violation(f"{c['v']}:replay-{st}", dict(instance=ikey, error=val),
                           match=dict(variant=c['v'], kind='replay-died'))
             continue
         chk.replayed += val['done']
-        chk.count(mdcev.inst_key(c), val['n'])
+        chk.count(ikey, val['n'])
         per_variant[(c['mode'], c['v'])] += 1
+        if item.get('seq'):
+            seq_forecasts += val['done']
+            if val['sample'] and c['v'] not in seq_samples and len(val['sample']['history']) >= 6 and \
+                    len({str(h['expected']) for h in val['sample']['history']}) >= 3:
+                seq_samples[c['v']] = val['sample']
         traces += val['traces']
         tinfo.update(val['tinfo'])
         for m in val['mism']:
@@ -134,8 +176,12 @@ def body(chk: check.Check):
             chk.violation(m['key'], m['detail'], match=m['facts'])
         if val['sample'] and (c['mode'], c['v']) not in samples and c['n'] == 3 and val['sample'].get('tries') and len(val['sample']['tries']) > 1:
             samples[(c['mode'], c['v'])] = val['sample']
+    for k in sorted(seq_samples)[:2]:
+        chk.sample(dict(mode='seq', **seq_samples[k]), limit=8)
     for k in sorted(samples)[:6]:
-        chk.sample(dict(mode=k[0], **samples[k]), limit=6)
+        chk.sample(dict(mode=k[0], **samples[k]), limit=8)
+    chk.extra['histories']['replayed'] = len(seq_items)
+    chk.extra['histories']['forecasts_replayed'] = seq_forecasts
 
     # ------------------------------------------------------------------ trace validation
     t0 = time.time()
@@ -162,17 +208,22 @@ def body(chk: check.Check):
     chk.extra['mismatch_kinds'] = dict(by_kind)
 
     t0 = time.time()
-    controls(chk, emitted, recs, traces, tinfo, verdicts)
+    controls(chk, emitted, recs, traces, tinfo, verdicts, histories)
     timing['controls'] = round(time.time() - t0, 1)
 
     chk.uncovered += [
         'rows with explanatory variables entering the baseline utilities through estimated parameters (estimation_results set): the '
-        'baseline utility is an expression evaluated on a one-row database; its value V is what the specification sees',
+        'baseline utility is an expression evaluated on a one-row database (constant columns outside the histories, one column per good '
+        'holding V in the histories); its value V is what the specification sees',
         'more than 4 goods; exponents outside {1/4, 1/3, 1/2, 3/4, 9/10}; budgets above 20',
         'error draws are a small set of rationals / scale * log r, not Gumbel samples (generate_epsilons is not exercised)',
         'the numeric clause "objective >= brute force" is decided on the objective computed from the specification\'s utility terms at '
         'the two points; brute-force points that miss the budget by more than 1e-7 are not used (counted in the evidence)',
         'forecast_comparison_one_draw / validate_forecast (they only log warnings) and the estimation side (loglikelihood) of the classes',
+        'histories of one model object: three steps (first data set, second, first again), data sets of one or two rows, exact mode only; '
+        'a Database object whose data frame is modified IN PLACE between two forecasts (the library caches the baseline utilities per '
+        'Database object; every step of a history hands over a new Database, as forecast() itself does for every row); '
+        'estimation_results replaced between two forecasts',
     ]
     chk.assumptions += [
         'primitives exp / log / pow of the term language are interpreted by Python math (vb/terms.py)',
@@ -183,8 +234,36 @@ def body(chk: check.Check):
     ]
 
 
-def controls(chk, emitted, recs, traces, tinfo, verdicts):
+def controls(chk, emitted, recs, traces, tinfo, verdicts, histories):
     """Negative controls: the machinery must notice each of these."""
+    # (0) one model object on several data sets.  Model level: an object that remembers what it computed for a row label
+    inst = mdcev.one_variant(mdcev.instance('quick', chk.seed, 'seq'), 'gamma')
+    res = tlc.run('MCMdcev', mdcev.cfg(inst, mutation='reuse-by-row-label', emit=False), extra_modules={'MCMdcev': mdcev.module(inst, base='MdcevSeq')},
+                  workers=4, timeout=600, heap='2g')
+    chk.control('MdcevSeq with Mutation = reuse-by-row-label: TLC must report SeqForecastIsOptimum',
+                res.violated == 'SeqForecastIsOptimum', f'violated={res.violated}')
+    # replay level: real model classes that remember the baseline utility of a row label
+    cand = [r for r in histories if set(r['seq']['la']) & set(r['seq']['lb']) and
+            any(a['x'] != b['x'] for a in r['hist'] for b in r['hist'] if a['step'] == 1 and b['step'] == 2 and a['lab'] == b['lab'])]
+    by_variant = {}
+    for r in cand:
+        by_variant.setdefault(r['c']['v'], r)
+    seq_ctl = [dict(id=f'ctl-seq-{v}', rec=r, lab=mdcev.LABELINGS[r['c']['n']][1], seq=True, engine=None, validation=(2,))
+               for v, r in sorted(by_variant.items())]
+
+    def run_cached():
+        cl = mdcev.cached_by_row_label_classes()
+        return [mdcev.replay_seq(it, classes=cl) for it in seq_ctl]
+
+    st, val = rt.forked(run_cached)
+    hits = [sorted({m['key'].split(':', 1)[1] for m in v['mism']}) for v in val] if st == 'ok' else []
+    chk.control('model classes that remember the baseline utility of a row label, used on two data sets with the same row labels: '
+                'every variant must be reported (forecast of the second data set)',
+                st == 'ok' and len(seq_ctl) == len(mdcev.VARIANTS) and
+                all(any(m['key'].endswith('seq:forecast-vs-spec') and m['facts']['step'] >= 2 for m in v['mism']) and
+                    any(m['key'].endswith('seq:forecast-public-vs-spec') for m in v['mism']) for v in val),
+                f'variants={[it["rec"]["c"]["v"] for it in seq_ctl]} clauses={hits[:1]}')
+
     # (1) model level: a procedure that accepts every candidate reaches a point that is not a Kuhn-Tucker point
     inst = mdcev.one_variant(mdcev.instance('quick', chk.seed, 'exact'), 'gamma')
     res = tlc.run('MCMdcev', mdcev.cfg(inst, mutation='always-accept', emit=False), extra_modules={'MCMdcev': mdcev.module(inst)},
